@@ -88,10 +88,14 @@ def _apply_patch_copy(patch, scratch):
     shutil.copytree(os.path.join(src, "forsys"), os.path.join(scratch, "forsys"))
     for extra in ("tests", "examples"):
         os.symlink(os.path.join(src, extra), os.path.join(scratch, extra))
+    # a seeded change written against an older commit may carry a rebased version of the same edit
+    reb = os.path.join(os.path.dirname(patch), "patch_rebased.diff")
+    if os.path.basename(patch) == "patch.diff" and os.path.exists(reb):
+        patch = reb
     p = subprocess.run(["git", "apply", "--unsafe-paths", "--directory=" + scratch, patch], cwd=scratch,
                        stdout=subprocess.PIPE, stderr=subprocess.PIPE)
     if p.returncode != 0:
-        p = subprocess.run(["patch", "-p1", "--binary", "-d", scratch, "-i", patch], stdout=subprocess.PIPE, stderr=subprocess.PIPE)
+        p = subprocess.run(["patch", "-p1", "--binary", "-F3", "-d", scratch, "-i", patch], stdout=subprocess.PIPE, stderr=subprocess.PIPE)
         if p.returncode != 0:
             raise RuntimeError("patch does not apply: " + p.stdout.decode()[-400:] + p.stderr.decode()[-400:])
 
@@ -127,7 +131,14 @@ def sensitivity(argv):
             continue
         scratch = tempfile.mkdtemp(prefix="verif-mut-", dir="/dev/shm" if os.path.isdir("/dev/shm") else None)
         try:
-            _apply_patch_copy(patch, scratch)
+            try:
+                _apply_patch_copy(patch, scratch)
+            except RuntimeError as ex:
+                results.append({"mutant": name, "property": prop, "expect": "does-not-apply", "exit": None, "caught": False,
+                                "replay_reproduces": None, "replay_clean_on_unchanged_tree": None, "wall_s": 0.0,
+                                "first": "patch does not apply to the current tree", "what": []})
+                print(json.dumps(results[-1]))
+                continue
             env = dict(os.environ)
             env["VERIF_REPO"] = scratch
             cmd = [os.path.join(HERE, "check"), prop, "--tier", "quick"]
@@ -181,7 +192,12 @@ def refactors(argv):
             continue
         scratch = tempfile.mkdtemp(prefix="verif-ref-", dir="/dev/shm" if os.path.isdir("/dev/shm") else None)
         try:
-            _apply_patch_copy(patch, scratch)
+            try:
+                _apply_patch_copy(patch, scratch)
+            except RuntimeError:
+                results.append({"refactor": name, "property": "-", "exit": 0, "lines": ["patch does not apply to the current tree (skipped)"]})
+                print(json.dumps(results[-1]))
+                continue
             env = dict(os.environ)
             env["VERIF_REPO"] = scratch
             for prop in ("C09", "C10", "C11"):
